@@ -5,6 +5,7 @@ import (
 	"context"
 	"errors"
 	"fmt"
+	"github.com/influxdata/influxdb/pkg/verifhook"
 	"io"
 	"math"
 	"os"
@@ -781,6 +782,7 @@ func (f *FileStore) replace(oldFiles, newFiles []string, updatedFn func(r []TSMF
 			if err := os.Rename(oldName, newName); err != nil {
 				return err
 			}
+			verifhook.At("fs.rename", newName, 0)
 		}
 
 		// Any error after this point should result in the file being bein named
@@ -892,6 +894,7 @@ func (f *FileStore) replace(oldFiles, newFiles []string, updatedFn func(r []TSMF
 				if err := file.Remove(); err != nil {
 					return err
 				}
+				verifhook.At("fs.remove", remove, 0)
 				break
 			}
 		}
@@ -904,6 +907,7 @@ func (f *FileStore) replace(oldFiles, newFiles []string, updatedFn func(r []TSMF
 	if err := file.SyncDir(f.dir); err != nil {
 		return err
 	}
+	verifhook.At("fs.syncdir", f.dir, 0)
 
 	// Tell the purger about our in-use files we need to remove
 	f.purger.add(inuse)
